@@ -17,6 +17,7 @@ import (
 	"net/http"
 	"net/http/httptest"
 	"reflect"
+	"sort"
 	"strings"
 	"time"
 
@@ -701,7 +702,14 @@ func (w *jwtWorld) checkAuthorize(rec *jwtRec, rw *httptest.ResponseRecorder, al
 			r.Fail("jwt-accepted-status", "%s: handler ran and wrote 200 but the client got %d", describe(rec, &v), rec.status)
 			return
 		}
-		for k, want := range v.claims {
+		// sorted: which claim is reported first (and so the failure class) must not depend on map order
+		keys := make([]string, 0, len(v.claims))
+		for k := range v.claims {
+			keys = append(keys, k)
+		}
+		sort.Strings(keys)
+		for _, k := range keys {
+			want := v.claims[k]
 			got := rec.seen[k]
 			if isStandard(k) {
 				if got != nil {
